@@ -55,6 +55,18 @@ CLAIMS = {
          "donations and holder burns; the unrestricted statement is refuted by a proved witness (same root cause as C01, known finding KF-SWAP-WINDOW), so the history theorem is `partial`: every ingredient but in-window swaps. "
          "Correspondence + oracle: after every step of every world family (accepted or rejected) reserve0*reserve1/S^2 of every pair is compared by exact cross-multiplication on the implementation's own ledger.",
          "§6 C03, §7 D1", "Lean 4 proof (order preserved by every pricing function; composition) + differential correspondence on cw-multi-test"),
+ "C07": ("Lean theorems over the world model, for every operation kind: frame (no account outside Touched changes any balance), allowance frame (bystanders' allowances are never consumed), "
+         "conservation of native coins and of cw20 tokens relative to their supply over any duplicate-free account list containing the touched accounts, supply of non-LP tokens changes only by a holder's own burn, "
+         "LP supply changes exactly by the minted share (plus the reserved unit) on provision and by the burned amount on withdrawal. Proved once through an inductive `Moves` relation over ledger primitives. "
+         "Correspondence + oracle: the full ledger is diffed around every step of the world families against the permitted set.",
+         "§6 C07", "Lean 4 proof (frame + conservation by induction over ledger primitives) + differential correspondence on cw-multi-test"),
+ "C13": ("Lean theorems: exact meaning of the route-shape check (the asks produced and never consumed later; accepted iff exactly one), empty and two-output routes rejected; every hop spends the router's whole balance of its offer asset and leaves none; "
+         "single-hop pass-through: the recipient receives exactly the router's quote, the input is consumed, the router keeps nothing, nothing else reaches the recipient. The multi-hop induction is not yet proved (partial). "
+         "Correspondence + oracle: world family route (1-4 hops, both entry points) compares the recipient's gain with the router's own simulation and checks the router's balances are zero afterwards.",
+         "§6 C13", "Lean 4 proof (route shape + per-hop pass-through) + differential correspondence on cw-multi-test"),
+ "C17": ("Lean theorems: the registry invariant RegOK (keys sorted, records keyed by their own assets, record = pair self-description, distinct pairs) is preserved by creation, by decimals re-registration for any number of pairs, and by every other operation; "
+         "after a re-registration every record and pair containing the denom carries the new decimals in the denom's position, all else unchanged, nothing moved (defect D4 repaired). "
+         "Correspondence + oracle: world family factory with up to 17 pairs.", "§6 C17, §7 D4", "Lean 4 proof (invariant by induction over the registry fold) + differential correspondence on cw-multi-test"),
  "C15": ("Lean theorems: soundness and completeness of assert_slippage_tolerance, >100% always rejected, no abort on positive 128-bit inputs. "
          "Correspondence: slippage family with deposits solved around both ratio limits.", "§6 C15", "Lean 4 proof + differential correspondence"),
 }
@@ -65,12 +77,12 @@ PENDING = {}
 NOT_YET = {
  "C02_": "world-level model (N5) and swap settlement theorems not built yet; planned, see DESIGN §6 C02",
  "C03_": "history induction over the world model not built yet; planned, see DESIGN §6 C03",
- "C07": "frame/conservation theorems over the world model not built yet; planned",
+ "C07_": "frame/conservation theorems over the world model not built yet; planned",
  "C11_": "router model not built yet; planned",
- "C13": "router model not built yet; planned",
+ "C13_": "router model not built yet; planned",
  "C14_": "authorisation theorems over the world/factory model not built yet; planned",
  "C16_": "registry model (N4) not built yet; planned",
- "C17": "factory state machine model not built yet; planned",
+ "C17_": "factory state machine model not built yet; planned",
  "C18_": "text model (N2) not built yet; planned",
  "C19_": "pagination model not built yet; planned",
  "C20": "liveness from the inductive invariant not built yet; planned",
